@@ -153,15 +153,18 @@ def run_check(mod, tier, seed, replay=None):
     # 3. correspondence + oracle on the real code (always; this is also the failing-input search)
     ctx.broken = broken
     ctx.gen_status = gen_status
+    known = load_known()
+    mine = [k for k in known.get("findings", []) if k["property"] == pid]
     try:
+        for k in mine:                      # recorded findings: replay each witness on the real code first
+            if hasattr(mod, "witness_case") and k.get("witness") is not None:
+                mod.witness_case(ctx, k["witness"])
         mod.run(ctx)
     except Exception:
         print("INTERNAL: harness failure\n" + traceback.format_exc())
         return 2
 
     # 4. verdict
-    known = load_known()
-    mine = [k for k in known.get("findings", []) if k["property"] == pid]
     known_classes = {k["class"]: k for k in mine}
     new_failures = [f for f in ctx.failures if f["class"] not in known_classes]
     seen_known = {}
